@@ -132,6 +132,38 @@ class C04(Property):
         res.append(self._rest(i2, [], "none", 0, fl=True))
         res.append(self._rest([["wh", 101], ["w", [200]]], [], "none", 0))
         res.append(self._rest(i2, [], "cancel", 2, req="ws"))
+        return res + self._cross_product()
+
+    def _cross_product(self):
+        """every run: the full cross product of timeout settings for the zRPC client interceptor and the zRPC
+        server interceptor: {caller deadline: none / earlier than / between / later than each configured value}
+        x {default timeout: <= 0 / value} x {per-call / per-method override: absent / shorter / longer / <= 0}
+        (the REST per-route product is in the server cases)."""
+        res = []
+        s_, m_, l_ = HOUR // 3, HOUR, 2 * HOUR
+        callers = [None, HOUR // 6, HOUR // 2, 3 * HOUR // 2, 3 * HOUR]
+        j = 0
+        for default in (m_, 0, -1):
+            for opts in ([], [s_], [l_], [0], [-5], [s_, l_], [l_, s_], [0, s_]):
+                for caller in callers:
+                    j += 1
+                    res.append({"kind": "client", "opts": opts, "filler": j % 3, "default_ns": default,
+                                "parent_ns": caller, "inv_err": 7 if j % 5 == 0 else 0})
+        # server: default x per-method entry for the called method (and one for another method) x caller
+        for default in (m_, 0):
+            for override in (None, s_, l_, -5):
+                for caller in callers:
+                    confs = [[2, HOUR // 2]]                     # another method's entry never applies
+                    if override is not None:
+                        confs.append([1, override])
+                    eff = override if override is not None else default
+                    if eff <= 0:
+                        # the derived context is born expired: the wrapper returns DeadlineExceeded at once
+                        res.append(self._slot("zrpc", ["work"], [0, 77], ["ret", 3, 0], "deadline", 0, default,
+                                              caller, confs, 1))
+                    else:
+                        res.append(self._slot("zrpc", ["work"], [0, 77], ["ret", 3, 0], "none", 0, default,
+                                              caller, confs, 1))
         return res
 
     def _rest(self, script, h0, mode, pos, req="plain", dur=None, parent=None, yld=0, fl=False):
